@@ -142,6 +142,8 @@ def run(chk):
     from . import twins
     twins.rule_token_agreement(chk, cf.PROGRAM[0] or cf.Program(), 'K1', floor=150)
     run_h7(chk, cf.PROGRAM[0] or cf.Program())
+    from . import clones as _clones
+    _clones.rule_signature_siblings(chk, 'N9')
     from . import ivcover
     ivcover.run(chk, cf.PROGRAM[0] or cf.Program(), 'H8')
 
